@@ -175,7 +175,7 @@ def exSvcSafe : Svc :=
     server := textOfName [[104, 49], [108, 111, 99, 97, 108]], port := 80, weight := 0, priority := 0, text := [3, 107, 61, 118],
     hostTtl := 120, otherTtl := 4500, v4 := [[10, 0, 0, 1]], v6 := [] }
 
-example (glue : TextGlue) (henum : NameTextSafe RespSpec.enumName) : SvcSafe id 4500 exSvcSafe := by
+theorem exSvcSafe_safe (glue : TextGlue) (henum : NameTextSafe RespSpec.enumName) : SvcSafe id 4500 exSvcSafe := by
   have hT : NameTextSafe exSvcSafe.type := exTypeA_safe glue
   have hN : NameTextSafe exSvcSafe.name := fromWire_safe glue ⟨_, by decide +kernel, by decide +kernel, rfl⟩
   have hS : NameTextSafe exSvcSafe.server := fromWire_safe glue ⟨_, by decide +kernel, by decide +kernel, rfl⟩
@@ -190,6 +190,54 @@ example (glue : TextGlue) (henum : NameTextSafe RespSpec.enumName) : SvcSafe id 
   · exact ⟨hN, by decide, by decide, by decide, by decide⟩
   · exact ⟨hS, by decide, by decide, by decide, by decide⟩
   · exact ⟨hN, by decide, by decide, by decide, hN, by decide⟩
+
+/-! ### the invariant is not only the empty state's: a populated instance, reached through the modelled blocks
+
+(review 2, finding 1: the only witness of `CInv`/`CTInv`/`CFInv` used to be the empty state, and registration / browser start /
+lookup start were `other` blocks under `hO`.)  From the initial state, the API blocks `update` (a service with address, TXT, SRV),
+`browserStart` for `_a._tcp.local.`, `schedStart`, `lookupStart`, `addUser` run — evaluated by the kernel — to a state with one
+registered service (`has_entries`), one browser with its armed scheduler, one lookup in progress and one user listener; by
+`hrun_inv` that state satisfies the full invariant, so every theorem of this file applies to it and to everything reachable from it. -/
+
+def exPopulate : List (HBlock Nat) :=
+  [.api (.update exSvcSafe), .api (.browserStart ⟨[exTypeA], 1000, none, 20, 120⟩ 30), .api (.schedStart 0 50 30),
+   .api (.lookupStart exTypeA 40), .api (.addUser 0)]
+
+def exEmpty : CS Nat := ⟨{}, [], [], [], {}, [], [], none, ({}, {})⟩
+
+/-- the parameters of the kernel-evaluated run (no API block looks at them) -/
+abbrev exRun (s : State (CS Nat)) (bs : List (HBlock Nat)) :=
+  hrun id possibleTypes 4500 (fun _ _ => true) (fun _ t => (20, 20, t)) (fun _ => 0) exUser (fun _ _ _ => false) s bs
+
+theorem C15_populated_instance (glue : TextGlue) (henum : NameTextSafe RespSpec.enumName) :
+    ∃ s out, exRun (State.init exEmpty) exPopulate = .ok (s, out) ∧ HInv id 4500 (fun _ : Nat => True) 40 s ∧
+      s.down.reg.services.length = 1 ∧ s.down.reg.hasEntries = true ∧ s.down.browsers.length = 1 ∧ s.down.scheds.length = 1 ∧
+      s.down.lookups.length = 1 ∧ s.down.rest.1.users.length = 1 := by
+  have hev : (match exRun (State.init exEmpty) exPopulate with
+      | .ok (s, _) => (s.down.reg.services.length, s.down.reg.hasEntries, s.down.browsers.length, s.down.scheds.length,
+                       s.down.lookups.length, s.down.rest.1.users.length)
+      | .error _ => (0, false, 0, 0, 0, 0)) = (1, true, 1, 1, 1, 1) := by decide +kernel
+  have hsafe : ∀ b ∈ exPopulate, HSafe id 4500 (fun _ : Nat => True) b := by
+    intro b hb
+    simp only [exPopulate, List.mem_cons, List.not_mem_nil, or_false] at hb
+    rcases hb with rfl | rfl | rfl | rfl | rfl
+    · exact exSvcSafe_safe glue henum
+    · show TypesSafe [exTypeA]
+      intro t ht; simp only [List.mem_singleton] at ht; subst ht; exact exTypeA_safe glue
+    · trivial
+    · exact exTypeA_safe glue
+    · trivial
+  have hmono : Mono 0 exPopulate := ⟨by decide, by decide, by decide, trivial⟩
+  cases hr : exRun (State.init exEmpty) exPopulate with
+  | error e => rw [hr] at hev; cases hev
+  | ok v =>
+    obtain ⟨s, out⟩ := v
+    rw [hr] at hev
+    simp only [Prod.mk.injEq] at hev
+    have hI := hrun_inv id possibleTypes 4500 (fun _ _ => true) (fun _ t => (20, 20, t)) (fun _ => 0) exUser (fun _ _ _ => false)
+      (fun _ : Nat => True) glue ⟨fun u _ pairs _ _ => ⟨u + 1, _, rfl, trivial⟩, fun u _ _ => ⟨u, _, rfl, trivial⟩⟩
+      exPopulate 0 (State.init exEmpty) s out (C15_closed_init id 4500 (fun _ : Nat => True) 0) hmono hsafe hr
+    exact ⟨s, out, rfl, hI, hev.1, hev.2.1, hev.2.2.1, hev.2.2.2.1, hev.2.2.2.2.1, hev.2.2.2.2.2⟩
 
 /-! ## The third clause over the closed composite -/
 
